@@ -94,8 +94,8 @@ fn materialise(root: &Path, l: &Layout) -> std::io::Result<()> {
         }
     }
     if l.stray & 2 == 2 {
-        // a named pipe in the database directory is not a sub-directory (best effort: no mkfifo, no pipe)
-        let _ = std::process::Command::new("mkfifo").arg(root.join("pipe-1.0")).stderr(std::process::Stdio::null()).status();
+        // a named pipe in the database directory is not a sub-directory
+        mc_drivers::mkfifo(&root.join("pipe-1.0"))?;
         std::fs::write(root.join("pkg-vulnerabilities"), b"vulns")?;
         std::fs::write(root.join("z-9"), b"a plain file that looks like a package name")?;
     }
@@ -538,44 +538,70 @@ fn metadata_histories_from(t: &mut Tally, n: usize, only: Option<&[String]>) {
     // optional entries, among them the two sizes in both orders of magnitude
     ops.extend([(0usize, "A=1\n"), (12, "10"), (13, "5"), (13, "20"), (12, "x")]);
     let label = |o: usize| format!("{} <- {:?}", FILES[ops[o].0], ops[o].1);
+    // Replay: decode the recorded calls and run exactly that one sequence.
+    let decoded: Option<(usize, Vec<usize>)> = only.and_then(|calls| {
+        let start = calls.first()?.strip_prefix("start ")?.parse::<usize>().ok()?;
+        let q: Option<Vec<usize>> = calls[1..].iter().map(|c| (0..ops.len()).find(|o| &label(*o) == c)).collect();
+        Some((start, q?))
+    });
+    if only.is_some() && decoded.is_none() {
+        return;
+    }
+    let mut one = |t: &mut Tally, start: usize, q: &[usize]| {
+        let mine: Vec<String> = std::iter::once(format!("start {}", start)).chain(q.iter().map(|o| label(*o))).collect();
+        t.evals += 1;
+        t.validated += 1;
+        t.states += 1;
+        t.transitions += 1;
+        let r = guard(|| {
+            let mut m = if start == 1 { Metadata::default() } else { Metadata::new() };
+            // what the calls so far say about each mandatory entry, whether values replace or
+            // accumulate: Some(true) = its latest value was not empty, Some(false) = it never got
+            // a value that was not empty, None = left open
+            let mut known: [Option<bool>; 3] = [Some(false); 3];
+            if start == 2 {
+                for (k, e) in [2usize, 3, 5].into_iter().enumerate() {
+                    let _ = m.read_metadata(meta_entry(e), "base\n");
+                    known[k] = Some(true);
+                }
+            }
+            for (step, o) in q.iter().enumerate() {
+                let _ = m.read_metadata(meta_entry(ops[*o].0), ops[*o].1);
+                if let Some(k) = [2usize, 3, 5].iter().position(|e| *e == ops[*o].0) {
+                    known[k] = if !ops[*o].1.is_empty() { Some(true) } else if known[k] == Some(false) { Some(false) } else { None };
+                }
+                let by_getters = !m.comment().is_empty() && !m.contents().is_empty() && !m.desc().is_empty();
+                let got = m.is_valid().is_ok();
+                if got != by_getters {
+                    return Some((step, by_getters, got, "is_valid holds exactly when comment, contents and description are all non-empty (as the getters report them)"));
+                }
+                let by_calls = if known.iter().all(|k| *k == Some(true)) { Some(true) } else if known.iter().any(|k| *k == Some(false)) { Some(false) } else { None };
+                if let Some(want) = by_calls {
+                    if got != want {
+                        return Some((step, want, got, "is_valid holds exactly when comment, contents and description were all given a value that is not empty (values for other entries change nothing about that)"));
+                    }
+                }
+            }
+            None
+        });
+        match r {
+            Ok(None) => t.outcome("metadata-history/consistent"),
+            Ok(Some((step, want, got, why))) => t.violation(Violation::new("metadata-history", json!({"calls": mine}), json!({"after_call": step + 1, "is_valid": want}), json!(got), why)),
+            Err(m) => t.violation(Violation::new("metadata-history", json!({"calls": mine}), json!("returns"), json!(format!("panic: {}", m)), "Metadata panicked")),
+        }
+    };
+    if let Some((start, q)) = decoded {
+        one(t, start, &q);
+        return;
+    }
     for start in 0..3usize {
         // 0: Metadata::new(), 1: Metadata::default(), 2: new() with the three mandatory values set
+        // (from the complete base one call fewer, at least one)
         let depth = if start == 2 { n.saturating_sub(1).max(1) } else { n };
         let mut pre = vec![];
         seqs::dfs(ops.len(), depth, &mut pre, &|_| false, &mut |q: &[usize]| {
-            if q.is_empty() {
-                return;
-            }
-            let mine: Vec<String> = std::iter::once(format!("start {}", start)).chain(q.iter().map(|o| label(*o))).collect();
-            if let Some(calls) = only {
-                if mine != calls {
-                    return;
-                }
-            }
-            t.evals += 1;
-            t.validated += 1;
-            t.states += 1;
-            t.transitions += 1;
-            let r = guard(|| {
-                let mut m = if start == 1 { Metadata::default() } else { Metadata::new() };
-                if start == 2 {
-                    for e in [2usize, 3, 5] {
-                        let _ = m.read_metadata(meta_entry(e), "base\n");
-                    }
-                }
-                for (step, o) in q.iter().enumerate() {
-                    let _ = m.read_metadata(meta_entry(ops[*o].0), ops[*o].1);
-                    let by_getters = !m.comment().is_empty() && !m.contents().is_empty() && !m.desc().is_empty();
-                    if m.is_valid().is_ok() != by_getters {
-                        return Some((step, by_getters, m.is_valid().is_ok()));
-                    }
-                }
-                None
-            });
-            match r {
-                Ok(None) => t.outcome("metadata-history/consistent"),
-                Ok(Some((step, want, got))) => t.violation(Violation::new("metadata-history", json!({"calls": mine}), json!({"after_call": step + 1, "is_valid": want}), json!(got), "is_valid holds exactly when comment, contents and description are all non-empty")),
-                Err(m) => t.violation(Violation::new("metadata-history", json!({"calls": mine}), json!("returns"), json!(format!("panic: {}", m)), "Metadata panicked")),
+            if !q.is_empty() {
+                one(t, start, q);
             }
         });
     }
@@ -747,7 +773,7 @@ fn replay(run: &Run, doc: &Value) -> Option<Violation> {
         Some("roots") => check_roots(&mut t, &run.scratch_dir()),
         Some("metadata-history") => {
             let calls: Vec<String> = c["calls"].as_array().map(|a| a.iter().filter_map(|x| x.as_str().map(|s| s.to_string())).collect()).unwrap_or_default();
-            metadata_histories_from(&mut t, calls.len().max(2), Some(&calls));
+            metadata_histories_from(&mut t, calls.len(), Some(&calls));
         }
         Some("reiterate") => check_reiterate(&mut t, &run.scratch_dir(), c["variant"].as_u64().unwrap_or(0) as usize),
         Some("large") => check_large(&mut t, &run.scratch_dir(), c["packages"].as_u64().unwrap_or(1) as usize),
@@ -850,6 +876,16 @@ fn main() {
             check_names(t, &scratch, i, names);
         });
     }
+    // the tree changes between two iterations while every modification time is put back
+    {
+        let ids: Vec<usize> = (0..6).collect();
+        run.bound("re-iteration: 6 variants of a 4-directory tree changed between iterations (a file removed here, the missing file added there) with all modification times restored");
+        par_items(&run, "C20 re-iteration", &ids, |_, i, t| {
+            t.states += 1;
+            t.transitions += 3;
+            check_reiterate(t, &scratch, *i);
+        });
+    }
     // scale: databases of 9..1100 (thorough 2500) numbered packages with metadata files of every
     // shape (empty, one byte, no final newline, CR LF, 8 KiB +-1, 1 MiB, non-ASCII)
     {
@@ -861,17 +897,7 @@ fn main() {
             check_large(t, &scratch, *n);
         });
     }
-    // the tree changes between two iterations while every modification time is put back
-    {
-        let ids: Vec<usize> = (0..6).collect();
-        run.bound("re-iteration: 6 variants of a 4-directory tree changed between iterations (a file removed here, the missing file added there) with all modification times restored");
-        par_items(&run, "C20 re-iteration", &ids, |_, i, t| {
-            t.states += 1;
-            t.transitions += 3;
-            check_reiterate(t, &scratch, *i);
-        });
-    }
-    run.bound(format!("Metadata histories: all sequences of <= {} read_metadata calls over 23 (entry, value) operations (three mandatory entries x six texts incl. packing lists, BUILD_INFO, the two sizes) on an object from new(), from default() and from a valid base; database roots: 5 spellings (non-UTF-8 name, symbolic link, trailing slash, dot segments)", run.pick(3, 4)));
+    run.bound(format!("Metadata histories: all sequences of <= {} read_metadata calls over 23 (entry, value) operations (three mandatory entries x six texts incl. packing lists, BUILD_INFO, the two sizes) on an object from new() and from default(), and one call fewer from a complete base; judged by the getters and by which entries were given a non-empty value; database roots: 5 spellings (non-UTF-8 name, symbolic link, trailing slash, dot segments)", run.pick(3, 4)));
     let mut t = Tally::new();
     metadata_histories(&mut t, run.pick(3, 4));
     check_roots(&mut t, &scratch);
